@@ -8,3 +8,4 @@ import RelicVerif.Props.C14
 import RelicVerif.Props.C09
 import RelicVerif.Props.C03
 import RelicVerif.Props.C18
+import RelicVerif.Props.C05
